@@ -103,7 +103,7 @@ class bspline(object):
                 bkpt = np.arange(nbkpts, dtype='f') * tempbkspace + startx
             elif everyn is not None:
                 nx = x.size
-                nbkpts = max(nx//everyn, 1)
+                nbkpts = max(nx//everyn, 2)
                 if nbkpts == 1:
                     xspot = [0]
                 else:
